@@ -181,6 +181,9 @@ type Gen struct {
 	Data  bool
 	nw    int
 	avail []string
+	// Fail: some conditions cannot be evaluated (they read a variable that does not exist): the engine reports an
+	// error trace and treats the alternative as not true
+	Fail bool
 }
 
 // WVars lists the task-written data variables (w...) of a program.
@@ -216,6 +219,9 @@ func settled(b *Block) bool {
 }
 
 func (gn *Gen) cond() *Cond {
+	if gn.Fail && gn.R.Intn(5) == 0 {
+		return &Cond{Kind: "fail"}
+	}
 	if gn.Data && len(gn.avail) > 0 && gn.R.Intn(2) == 0 {
 		c := &Cond{Kind: "var", Var: gn.avail[gn.R.Intn(len(gn.avail))], Op: ">", Val: 0}
 		if gn.R.Intn(3) == 0 {
